@@ -169,7 +169,7 @@ def build_catalogue():
 
     # ---- BPTC / VBPTC / trellis / RS -----------------------------------------------------------------------
     M96 = (MSG_A + MSG_B)[:96]
-    op("bptc.encode")(lambda: ((lambda: (ba(M96),)), (lambda b: BPTC19696.encode(b))))
+    op("bptc.encode", "shared")(lambda: ((lambda: (ba(M96),)), (lambda b: BPTC19696.encode(b))))
 
     def bptc_dec(repair, flip):
         def mk():
@@ -181,6 +181,17 @@ def build_catalogue():
     op("bptc.decode_clean", "parse")(lambda: bptc_dec(True, ()))
     op("bptc.decode_norepair", "parse")(lambda: bptc_dec(False, ()))
     op("bptc.decode_1err", "parse")(lambda: bptc_dec(True, (17,)))
+
+    def bptc_dec_reserved():
+        # a received block whose reserved bits R(3)..R(0) (transmit positions 0, 181, 166, 151) are not zero
+        def mk():
+            e = BPTC19696.encode(ba(M96))
+            for i in (0, 151, 166, 181):
+                e.invert(i)
+            return (e,)
+        return mk, (lambda e: (BPTC19696.deinterleave_data_bits(e, True), BPTC19696.repair_if_necessary(bitarray(e))))
+    op("bptc.decode_reserved_bits_set", "parse", "shared")(bptc_dec_reserved)
+    op("bptc.encode_other", "shared")(lambda: ((lambda: (ba(M96[::-1]),)), (lambda b: BPTC19696.encode(b))))
     op("bptc.deinterleave_all", "parse")(lambda: ((lambda: (BPTC19696.encode(ba(M96)),)), (lambda e: BPTC19696.deinterleave_all_bits(e))))
     op("vbptc128.encode")(lambda: ((lambda: (ba((MSG_A + MSG_B)[:72]),)), (lambda b: VBPTC12873.encode(b))))
     op("vbptc128.decode", "parse")(lambda: ((lambda: (VBPTC12873.encode(ba((MSG_A + MSG_B)[:72])),)), (lambda e: VBPTC12873.deinterleave_data_bits(e))))
@@ -272,6 +283,8 @@ def build_catalogue():
             return (lambda: (HEX(hx),)), (lambda d: HSTRP.from_bytes(d).as_bytes())
         op(f"hstrp.roundtrip_{i}", "parse")(hs)
     op("hstrp.from_bytes", "parse")(lambda: ((lambda: (HEX("32420020000183040001869f04010211000300040a000064bd03"),)), (lambda d: HSTRP.from_bytes(d))))
+    op("hstrp.from_bytes_no_options", "parse")(lambda: ((lambda: (HEX("324200000001024108050000d20400000e03"),)), (lambda d: HSTRP.from_bytes(d))))
+    op("hstrp.from_bytes_connect", "parse")(lambda: ((lambda: (HEX("324200040000"),)), (lambda d: HSTRP.from_bytes(d))))
     op("hrnp.from_bytes", "parse")(lambda: ((lambda: (HEX("7e04000020100001001b43b502471808000700000000000000c403"),)), (lambda d: HRNP.from_bytes(d))))
     op("hrnp.roundtrip", "parse")(lambda: ((lambda: (HEX("7e04000020100001001b43b502471808000700000000000000c403"),)), (lambda d: HRNP.from_bytes(d).as_bytes())))
     for nm, hx in (("lp", "08a0020032000000010a2110dd0000413138333634383236313031354e343731382e383035314530313835342e34333837302e313132310b03"),
